@@ -65,3 +65,7 @@ check("C17", "exploration",
       "Link-time wrappers feed every AEAD key setup and seal, every CBC encryption and every PRNG output block to an online monitor while ~80 scenarios per seed (every AEAD and CBC suite x version x full/resumed/ticket/client-auth/0-RTT; DTLS with a lost flight and timeout-driven retransmissions) run handshakes, 22 sends of sizes 0..16384 in undrained bursts, error and closure alerts: no (key, nonce) pair seals two different (AAD||plaintext); the write sequence number moves by exactly the number of records sealed per API call; every CBC record starts with a PRNG block drawn after the previous record and never used before; protected DTLS (epoch,seq) pairs repeat only byte-identically.",
       "Observation at the crypto-library boundary; HelloRetryRequest flights are not generated by this workload.",
       "online trace monitor over hooked crypto primitives (link-time interposition), ASan+UBSan build", "3/C17")
+check("C04", "exploration",
+      "By-construction monitor at handshake level: ~450 handshakes per seed between a verifying endpoint (client over TLS 1.1/1.2/1.3/DTLS with RSA transport, ECDHE-RSA, ECDHE-ECDSA, TLS 1.3 RSA/ECDSA/Ed25519; server with client authentication) and a peer whose chain and key were minted for one ground-truth label, under no / strict / permissive callback; completion on the verifying side must be justified by the label or by an explicit callback override, never for a wrong-key peer.",
+      "issuer-not-CA and unknown-critical-extension chains cannot be presented by a MatrixSSL peer (it validates its own identity at load time): those labels are decided at API level by C03; a server requests client authentication by registering a callback, so 'no callback' exists for clients only.",
+      "by-construction labelled-credential monitor on fork-cloned handshakes, ASan+UBSan build", "3/C04")
